@@ -187,6 +187,7 @@ def gen_fuzz_world(rng):
                  "retract": rng.random() < 0.5, "release_taskgraphs": rng.random() < 0.3,
                  "p_cancel": rng.choice([0.0, 0.05, 0.15]), "p_unplaced": rng.choice([0.05, 0.15, 0.4]),
                  "p_future": rng.choice([0.0, 0.4, 0.8])}
+    w["fuzz"]["p_keep"] = rng.choice([0.0, 0.5, 0.9]) if w["fuzz"]["retract"] else 0.0
     f["loop_timeout"] = min(f["loop_timeout"], rng.choice([300, 1000, 3000]))   # refused placements are retried every microsecond
     w["policy"] = "FUZZ"
     w["flags"]["scheduler"] = "EDF"         # unused: the harness substitutes its own policy
@@ -247,7 +248,7 @@ def gen_planner_world(rng, policy):
         for st in p["execution_strategies"]:
             st["runtime"] = rng.choice([1, 2, 3, 5, 10])
     f = w["flags"]
-    f.update({"scheduler_runtime": 0, "runtime_variance": 0, "loop_timeout": 10 ** 6,
+    f.update({"scheduler_runtime": 0, "runtime_variance": 0, "loop_timeout": rng.choice([1500, 3000]),
               "scheduler_lookahead": rng.choice([0, 0, 5, 50]), "release_taskgraphs": rng.random() < 0.3,
               "retract_schedules": rng.random() < 0.3, "scheduler_run_at_worker_free": False,
               "scheduler_frequency": rng.choice([-1, 1, 7]), "scheduler_delay": rng.choice([0, 1])})
